@@ -10,7 +10,7 @@ import (
 
 	"github.com/anoideaopen/foundation/core/balance"
 	fpb "github.com/anoideaopen/foundation/proto"
-	"google.golang.org/protobuf/encoding/protojson"
+	"github.com/golang/protobuf/proto" //nolint:staticcheck
 )
 
 func ccErr(msg string) string {
@@ -153,7 +153,7 @@ func (cw *ccWorld) obs(ch string) string {
 		sort.Strings(keys)
 		for _, k := range keys {
 			var tr fpb.CCTransfer
-			if err := protojson.Unmarshal(cw.w.Peer.Channels[ch].State[k], &tr); err != nil {
+			if err := decodeCCT(cw.w.Peer.Channels[ch].State[k], &tr); err != nil {
 				continue
 			}
 			s, g := cw.tokN(tr.GetToken())
@@ -182,6 +182,33 @@ func (cw *ccWorld) balTerm(ch string) string {
 		}
 	}
 	return "[]"
+}
+
+// decodeCCT reads a transfer record in either of the two forms the library reads: JSON, or the binary form earlier
+// releases wrote.
+func decodeCCT(data []byte, tr *fpb.CCTransfer) error {
+	if err := jsonpbUnmarshal(data, tr); err == nil {
+		return nil
+	}
+	return proto.Unmarshal(data, tr)
+}
+
+// agedRecords rewrites the transfer records of one channel into the binary form of earlier releases (what a ledger looks
+// like after an upgrade with transfers in flight); the library reads both forms, so nothing else may change.
+func (cw *ccWorld) agedRecords(c *Ctx, ch string) {
+	st := cw.w.Peer.Channels[ch].State
+	for k, v := range st {
+		if !strings.HasPrefix(k, "/transfer/") {
+			continue
+		}
+		var tr fpb.CCTransfer
+		if jsonpbUnmarshal(v, &tr) == nil {
+			if bin, err := proto.Marshal(&tr); err == nil && len(bin) > 0 {
+				st[k] = bin
+				c.Count("record_rewritten_in_legacy_binary_form")
+			}
+		}
+	}
 }
 
 // robot helpers -------------------------------------------------------------------------
@@ -227,7 +254,7 @@ func (cw *ccWorld) rec(ch, prefix, id string) *fpb.CCTransfer {
 		return nil
 	}
 	var tr fpb.CCTransfer
-	if err := protojson.Unmarshal(data, &tr); err != nil {
+	if err := decodeCCT(data, &tr); err != nil {
 		return nil
 	}
 	return &tr
@@ -309,7 +336,7 @@ var ccIDPool = []string{"i1", "i2", "I2"}
 
 func genC10(c *Ctx) error {
 	c.ShardSize = 20
-	c.Notes["rule"] = "two deployed chaincodes (TT, VT), two users and the admin. (one) arbitrary step sequences on one channel: customer / admin initiations (own token, grouped token, other channel's token, foreign token, wrong channel, ids a maintainer would reject, over-funded amounts) and the robot's createTo / cancel / commit / deleteFrom / deleteTo attempted at random times, also out of turn and repeated, the id now and then spelled ./id, id/ or x/../id (the same record); observed after every step. (two) interleavings of user initiations on both channels with a robot that picks, at random, among the steps its protocol enables from the two ledgers, and with customers' certificates calling the robot's five functions (create-to with the origin's real record, cancel, commit, deletes; an accepted submission is executed by the robot's next batch); both ledgers observed at the end. Non-trivial: a history with >= 2 successful and >= 2 rejected steps / >= 3 robot steps."
+	c.Notes["rule"] = "two deployed chaincodes (TT, VT), two users and the admin. (one) arbitrary step sequences on one channel: customer / admin initiations (own token, grouped token, other channel's token, foreign token, wrong channel, ids a maintainer would reject, over-funded amounts) and the robot's createTo / cancel / commit / deleteFrom / deleteTo attempted at random times, also out of turn and repeated, the id now and then spelled ./id, id/ or x/../id (the same record); observed after every step. (two) interleavings of user initiations on both channels with a robot that picks, at random, among the steps its protocol enables from the two ledgers, and with customers' certificates calling the robot's five functions (create-to with the origin's real record, cancel, commit, deletes; an accepted submission is executed by the robot's next batch); both ledgers observed at the end. In both parts the records of a channel are now and then rewritten into the binary form of earlier releases, which the library reads as well. (three) one transfer under a plain, grouped or many-part ticker (TT, TT_G1, TT_A_G1, TT_A_B, TT_B_A_B, ...), created and cancelled, or carried through the whole protocol there and back again: every balance entry of both channels before and after. Non-trivial: a history with >= 2 successful and >= 2 rejected steps / >= 3 robot steps."
 	n := c.N(120, 2500)
 	for i := 0; i < n; i++ {
 		if i%2 == 0 {
@@ -317,6 +344,11 @@ func genC10(c *Ctx) error {
 				return err
 			}
 		} else if err := c10Two(c); err != nil {
+			return err
+		}
+	}
+	for i := c.N(30, 600); i > 0; i-- {
+		if err := c10Restore(c); err != nil {
 			return err
 		}
 	}
@@ -348,6 +380,9 @@ func c10One(c *Ctx) error {
 	var ops, steps []string
 	okN, rejN := 0, 0
 	for k := 12 + rng.Intn(15); k > 0; k-- {
+		if rng.Intn(8) == 0 {
+			cw.agedRecords(c, []string{"tt", "vt"}[rng.Intn(2)])
+		}
 		var term, msg string
 		id := ccIDPool[rng.Intn(3)]
 		switch r := rng.Intn(100); {
@@ -407,6 +442,9 @@ func c10Two(c *Ctx) error {
 	var acts []string
 	robotSteps := 0
 	for k := 15 + rng.Intn(16); k > 0; k-- {
+		if rng.Intn(10) == 0 {
+			cw.agedRecords(c, []string{"tt", "vt"}[rng.Intn(2)])
+		}
 		if rng.Intn(100) < 35 {
 			ch := []string{"tt", "vt"}[rng.Intn(2)]
 			term, _ := cw.userOp(cw.randUserOp(c, ch))
@@ -534,6 +572,74 @@ func c10Two(c *Ctx) error {
 	term := fmt.Sprintf("CTwo 1 2 %d %d %s %s %s %s %s", cw.w.AdminAcc.N(), cw.w.AdminAcc.N(), initA, initB, coqList(acts), cw.obs("tt"), cw.obs("vt"))
 	c.Emit(term, map[string]interface{}{"kind": "two_channels", "acts": acts}, robotSteps >= 3)
 	c.CountN("two_robot_steps_performed", robotSteps)
+	return nil
+}
+
+// c10Restore: one transfer under a plain, grouped or many-part ticker, either created and cancelled or carried through
+// the whole protocol and back again; every balance entry of both channels before and after (nonce and record keys left out).
+func c10Restore(c *Ctx) error {
+	rng := c.Rng
+	cw, err := newCCWorld()
+	if err != nil {
+		return err
+	}
+	cw.fund()
+	u := cw.users[0]
+	for _, g := range []string{"B", "A_B", "G1_G1"} {
+		cw.w.SetBalance("tt", balance.BalanceTypeToken, u.AddrString(), g, big.NewInt(400))
+	}
+	ticker := []string{"TT", "TT_G1", "TT_A_G1", "TT_A_B", "TT_G1_G1", "TT_B_A_B", "TT_G1_B"}[rng.Intn(7)]
+	amt := strconv.Itoa(1 + rng.Intn(300))
+	num := map[string]int{}
+	snap := func() string {
+		var l []string
+		for _, ch := range []string{"tt", "vt"} {
+			for k, v := range cw.w.Peer.Channels[ch].State {
+				ot, _, ok := splitComposite(k)
+				if !ok || !balanceKinds[ot] {
+					continue
+				}
+				kk := ch + k
+				if _, seen := num[kk]; !seen {
+					num[kk] = len(num) + 1
+				}
+				l = append(l, fmt.Sprintf("(%d, (%s)%%Z)", num[kk], new(big.Int).SetBytes(v).String()))
+			}
+		}
+		sort.Strings(l)
+		return coqList(l)
+	}
+	before := snap()
+	if msg := tokenRun(cw.w, "tt", u, &cw.nonce, "channelTransferByCustomer", "r1", "VT", ticker, amt); msg != "" {
+		c.Count("restore_create_refused")
+		return nil
+	}
+	kind := "cancel"
+	leg := func(org, dst, id string) bool {
+		q := cw.w.Peer.Invoke(org, cw.w.Client.Creator, "channelTransferFrom", id)
+		if !q.OK() || cw.robotTx(dst, "createCCTransferTo", string(q.Payload)) != "" {
+			return false
+		}
+		return cw.robotNB(org, "commitCCTransferFrom", id) == "" && cw.robotNB(dst, "deleteCCTransferTo", id) == "" && cw.robotNB(org, "deleteCCTransferFrom", id) == ""
+	}
+	if rng.Intn(2) == 0 {
+		if msg := cw.robotTx("tt", "cancelCCTransferFrom", "r1"); msg != "" {
+			return fmt.Errorf("c10Restore: cancel refused: %s", msg)
+		}
+	} else {
+		kind = "there_and_back"
+		if !leg("tt", "vt", "r1") {
+			return fmt.Errorf("c10Restore: forward leg failed")
+		}
+		if msg := tokenRun(cw.w, "vt", u, &cw.nonce, "channelTransferByCustomer", "r2", "TT", ticker, amt); msg != "" {
+			return fmt.Errorf("c10Restore: return refused: %s", msg)
+		}
+		if !leg("vt", "tt", "r2") {
+			return fmt.Errorf("c10Restore: return leg failed")
+		}
+	}
+	c.Emit(fmt.Sprintf("CRestore %s %s", before, snap()), map[string]interface{}{"kind": "restore_" + kind, "ticker": ticker, "amount": amt}, true)
+	c.Count("restore_" + kind + "_ticker_parts_" + strconv.Itoa(strings.Count(ticker, "_")+1))
 	return nil
 }
 
